@@ -136,15 +136,15 @@ func DrawConfig(seed uint64, prof *Profile) Config {
 
 // Gen is the adaptive generator.
 type Gen struct {
-	e        *Env
-	r        *Rng
-	p        *Profile
-	horizon  int
-	nextData int
-	setupQ   []Step
-	silent   map[string]bool // "sp|order" -> stays silent for this attempt
-	dead     map[int]bool    // data idx known removed
-	quiesce  int             // height at which quiescence phase starts
+	e           *Env
+	r           *Rng
+	p           *Profile
+	horizon     int
+	nextData    int
+	setupQ      []Step
+	silent      map[string]bool // "sp|order" -> stays silent for this attempt
+	dead        map[int]bool    // data idx known removed
+	quiesce     int             // height at which quiescence phase starts
 	activeUntil int
 	Regen       bool
 	regenAt     int
@@ -156,7 +156,7 @@ type Gen struct {
 	nextOp      *Op
 	chaseRoll   bool
 	everSid     map[int]string // actor -> sid DID it has been listed in at some point
-	chase12     int // remaining jumps to the next examination of a stalled long-timeout order
+	chase12     int            // remaining jumps to the next examination of a stalled long-timeout order
 }
 
 func NewGen(e *Env, prof *Profile) *Gen {
